@@ -8,7 +8,7 @@ from simv.checks.common import COMMON_ASSUMPTIONS, run_single, strip_private
 
 ID = "C06"
 LEVEL = "exploration"
-QUICK_RUNS = 2500
+QUICK_RUNS = 4000
 CHUNK = 20
 RULE = ("seed -> schema, document valid by construction against the full June-2018 rule set with the legal-but-unusual knobs "
         "turned up (fragment spread probability 35%, up to 6 fragments forming a DAG with sharing, repeated/merged fields 40%, "
